@@ -79,6 +79,19 @@ func famC01(rn *Runner) {
 				default:
 					e = &EPath{Steps: []*Stp{{Axis: "descendant-or-self", Test: NodeTest{Kind: "node"}, Preds: []Expr{bin("=", call("count", inner), call("count", &EPath{Abs: true, Steps: inner.Steps}))}}}}
 				}
+			case 1:
+				// a name test inside a predicate of an attribute / namespace step: the principal node
+				// type of the enclosing step's axis must not leak into the nested expression
+				fam = "nested-principal-type"
+				var inner Expr = &EPath{Abs: rn.R.Chance(1, 4), Steps: g.Steps(0, 1+rn.R.Intn(2), 0)}
+				if rn.R.Chance(1, 3) {
+					inner = bin("=", call("count", inner), num(fmt.Sprint(rn.R.Intn(3))))
+				}
+				outer := &Stp{Axis: pick(rn.R, []string{"attribute", "attribute", "namespace"}), Test: NodeTest{Kind: pick(rn.R, []string{"any", "node"})}, Preds: []Expr{inner}}
+				if outer.Axis == "attribute" {
+					outer.Abbrev = rn.R.Bool()
+				}
+				e = &EPath{Abs: true, Steps: []*Stp{{Axis: "descendant-or-self", Test: NodeTest{Kind: "node"}, Abbrev: true}, outer}}
 			default:
 				e = g.Path(1, 0)
 			}
